@@ -114,6 +114,14 @@ pub fn inputs_for(ctx: &Ctx, g: &Gadget, zoo: &[SE], rng: &mut rand_chacha::ChaC
                     let v = rand_below(rng, &(b(1) << n));
                     p.push((bits_of(&v, n), "random"));
                 }
+                // short strings of several lengths (dense, so that set bits fall on every allocation mode of
+                // the mixed-mode gadgets), all-ones, single top bit
+                for n in [3usize, 5, 8, 13, 16, 33] {
+                    let v = rand_below(rng, &(b(1) << n)) | b(1) | (b(1) << (n / 2));
+                    p.push((bits_of(&v, n), "short random"));
+                    p.push((vec![true; n], "short all-ones"));
+                    p.push((bits_of(&(b(1) << (n - 1)), n), "short top bit"));
+                }
                 p
             };
             for (i, (bits, cl)) in pats.iter().enumerate() {
@@ -201,7 +209,7 @@ pub fn run(ctx: &Ctx, rec: &mut Rec) {
     let mut work: Vec<(usize, Inp, String)> = Vec::new();
     for (gi, g) in gs.iter().enumerate() {
         let budget = match g.kind {
-            "EBits" => ctx.scale(120, 600),
+            "EBits" => ctx.scale(200, 900),
             "F" => ctx.scale(500, 3000),
             "FF" => ctx.scale(240, 1500),
             _ => ctx.scale(400, 2400),
